@@ -300,7 +300,7 @@ M_DE = {
     "fsub": M("tokens_forget_sub", OB.ob_tokens_forget_sub, OB.ob_tokens_forget_sub.__doc__, DE_FN, DE_B, replay=["c14_lifecycle_scenarios"]),
     "rm3": M("rm3_removed_check", OB.ob_rm3_removed_check, OB.ob_rm3_removed_check.__doc__, DE_FN, DE_B, replay=["c16_removed_in_callback", "c14_lifecycle_scenarios", "d13_self_remove_then_error", "d15_remove_with_failing_unregister_lifecycle"]),
     "re1": M("re1_no_guards", OB.ob_re1_no_guards, OB.ob_re1_no_guards.__doc__, DE_FN, DE_B, replay=["c08_reentrancy_scenarios"]),
-    "lc2": M("lc2_order", OB.ob_lc2_order, OB.ob_lc2_order.__doc__, DE_FN, DE_B + "; the before_sleep loop unrolled once more", replay=["c14_lifecycle_scenarios", "c01_routing_scenarios"]),
+    "lc2": M("lc2_order", OB.ob_lc2_order, OB.ob_lc2_order.__doc__, DE_FN, DE_B + "; the before_sleep loop unrolled once more", replay=["c14_lifecycle_scenarios", "c01_routing_scenarios", "c13_idle_scenarios"]),
     "err1": M("err1", OB.ob_err1, OB.ob_err1.__doc__, DE_FN, DE_B1, replay=["d3_pending_action_error_path", "d8_error_drops_batch_remainder"]),
     "err2": M("err2_batch", OB.ob_err2_batch, OB.ob_err2_batch.__doc__, DE_FN, DE_B1, replay=["d8_error_drops_batch_remainder", "d13_self_remove_then_error"]),
 }
@@ -330,7 +330,7 @@ M_CH = {
               "channel::SyncSender::send", "<PingOnDrop as Drop>::drop"], "all paths (loop-free)", replay=["p_chan_stress"]),
     "process": M("chan_process", OB.ob_chan_process, OB.ob_chan_process.__doc__, ["<Channel<T> as EventSource>::process_events (+closure)",
                  "<PingSource as EventSource>::process_events (+closures)", "<Generic as EventSource>::process_events", "drain_ping", "Ping::ping", "send_ping"],
-                 "receive loop unrolled twice; the batch-limit expression for every 64-bit capacity", replay=["p_chan_stress"]),
+                 "receive loop unrolled twice; the batch-limit expression for every 64-bit capacity", replay=["p_chan_stress", "c07_disable_scenarios"]),
 }
 M_PING = {
     "ping": M("ping", OB.ob_ping, OB.ob_ping.__doc__, ["Ping::ping", "<FlagOnDrop as Drop>::drop", "send_ping", "drain_ping",
@@ -393,7 +393,7 @@ def addm(pid, obs):
 
 addm("C01", [M_DE["disp1"], M_DE["fsub"], M_DE["lc2"], M_TOK, M_TM["timer"]])
 addm("C20", [M_TOK, M_SLOTS])
-addm("C02", [M_DE["disp1"], M_CH["process"], M_EX["process"], M_POLL, M_IO["io"]])
+addm("C02", [M_DE["disp1"], M_CH["process"], M_EX["process"], M_POLL, M_IO["io"], M_IO["new"]])
 addm("C03", [M_PING["ping"], P_Q["ping"]])
 P("C04", "model_checking", [], [M_CH["send"], M_CH["process"], M_PING["ping"], P_Q["chan"]],
   bounds="engine M: all paths, receive loop unrolled twice, batch limit for every 64-bit capacity; engine P: see obligation bounds",
@@ -401,7 +401,7 @@ P("C04", "model_checking", [], [M_CH["send"], M_CH["process"], M_PING["ping"], P
           "channel pairs with a blocked sender); weak memory; more than one sender thread in the interleaving query")
 addm("C05", [M_TM["wheel"], M_TM["timer"], M_TM["stale"], M_POLL])
 addm("C06", [M_H["remove"], M_H["disable"], M_H["update"], M_H["enable"], M_DE["rm3"], M_DE["disp1"], M_TOK, M_SLOTS])
-addm("C07", [M_H["disable"], M_H["enable"], M_DE["pa2"], M_DE["fsub"], M_DE["rm3"], M_TM["timer"], M_DELEG])
+addm("C07", [M_H["disable"], M_H["enable"], M_DE["pa2"], M_DE["fsub"], M_DE["rm3"], M_TM["timer"], M_DELEG, M_CH["process"], M_PING["ping"]])
 addm("C08", [M_DE["re1"], M_H["re2"], M_EX["process"], M_DE["pa2"], M_H["idles"], M_DE["rm3"], M_H["remove"], M_DE["pav"]])
 addm("C09", [M_DE["pa2"], M_DE["pav"], M_H["disable"], M_H["update"], M_DE["fsub"]])
 P("C10", "model_checking", [], [M_EX["process"], M_EX["send"], M_EX["drop"], M_EX["stream"], P_Q["exec"]],
